@@ -1,5 +1,6 @@
 import HapModel.Drv.Util
 import HapModel.Frame
+import HapModel.Nonce
 import HapModel.Event
 namespace Hap.Drv.Frame
 open Lean Hap Hap.Drv Hap.Frame
@@ -77,6 +78,13 @@ def handle (j : Json) : R Json := do
     let closed := (List.range keys.length).map (fun i => Json.bool (res.1 i).closed)
     pure (Json.mkObj [("outs", Json.arr (res.2.map (fun (i, o) => Json.arr #[toJson i, jhex o])).toArray),
       ("closed", Json.arr closed.toArray)])
+  | "pack" =>
+    -- byte-level packing: nonces for the given counters, length prefixes for the given lengths
+    let ns ← (← getArr j "counters").toList.mapM asNat
+    let ls ← (← getArr j "lengths").toList.mapM asNat
+    let opt (o : Option Bytes) : Json := match o with | some b => jhex b | none => Json.str "struct.error"
+    pure (Json.mkObj [("nonces", Json.arr ((ns.map (fun n => opt (packNonce n))).toArray)),
+      ("lengths", Json.arr ((ls.map (fun n => opt (packLength n))).toArray))])
   | "event" =>
     -- create_hap_event around the given JSON body bytes
     let body ← getHex j "body"
